@@ -142,7 +142,7 @@ func constructSet[T comparable](d *drv, c *codec[T]) {
 		d.links = func() bool { return true }
 		d.fingerprint = func() string { return "HS" + fmt.Sprint(sortedInts(decs(d, c, s.Values()))) }
 	case "TreeSet":
-		s := treeset.NewWith[T](c.cmpFn(d.cfg.KRev))
+		s := treeset.NewWith[T](c.cmpCfg(d.cfg.KRev, d.cfg.KTie))
 		bindSetCommon[T](d, s, c)
 		d.iterF = func() [][2]int { it := s.Iterator(); return walkIdxF[T](d, &it, c) }
 		d.iterB = func() [][2]int { it := s.Iterator(); return walkIdxB[T](d, &it, c) }
